@@ -1,9 +1,14 @@
 //! C11 runner: generates sharding cases from the seed, runs the real Sharder / port functions
 //! / ShardInfo parser, and writes "<case> | <observed>" lines for the extracted model.
+//! e2e part (`E` lines): a real `Session` against `vh::mocknode` with small shard-aware local port
+//! ranges and pre-bound local ports (see `c11_e2e.rs`).
 use scylla::routing::verif_sharding as hooks;
 use scylla::routing::{ShardAwarePortRange, ShardCount, Sharder, Token};
 use std::collections::HashMap;
 use vh::*;
+
+#[path = "../c11_e2e.rs"]
+mod e2e;
 
 fn sharder(n: u16, msb: u8) -> Sharder {
     Sharder::new(ShardCount::new(n).unwrap(), msb)
@@ -175,12 +180,24 @@ fn main() {
     let mut out = Out::create(&a.out);
     if let Some(p) = &a.replay {
         for c in read_cases(p) {
+            if c.starts_with("E ") {
+                e2e::replay_case(&c, &mut out);
+                continue;
+            }
             let o = run_case(&c);
             out.case(&c, &o);
         }
         out.finish();
         return;
     }
+    // number of end-to-end scenarios: --e2e N, default by tier
+    let e2e_n: u64 = a
+        .extra
+        .iter()
+        .position(|x| x == "--e2e")
+        .and_then(|i| a.extra.get(i + 1))
+        .and_then(|v| v.parse().ok())
+        .unwrap_or(if a.tier == "thorough" { 1200 } else { 120 });
     let mut r = Rng::new(a.seed);
     // exhaustive small part: n <= 12, every shard, short ranges near both ends
     let exh_n = if a.tier == "thorough" { 40 } else { 12 };
@@ -261,6 +278,10 @@ fn main() {
         };
         let o = run_case(&c);
         out.case(&c, &o);
+    }
+    // ---- end to end: the connect loop over the iterator, observed at the mock node ----
+    if e2e_n > 0 {
+        e2e::run(a.seed, e2e_n, &mut out);
     }
     out.finish();
 }
